@@ -7,7 +7,7 @@
    written header.  The composition is decided by the correspondence runs of the parser and writer models and by the
    literal round trip through the public API (oracle) on every generated graph. *)
 From Coq Require Import String Ascii List Bool Arith NArith ZArith.
-Require Import PyStr PyInt Sexp Xml M_C09 T_C09 M_C08 T_C08 Ns Table M_Parse T_Parse M_Write T_Write.
+Require Import PyStr PyInt Sexp Xml M_C09 T_C09 M_C08 M_C08d T_C08 Ns Table M_Parse T_Parse M_Write T_Write.
 Import ListNotations.
 Open Scope char_scope.
 
